@@ -306,3 +306,4 @@ pub mod unstable_net_report {
 pub mod test_utils;
 #[cfg(iroh_verif)] pub mod verif_hooks_netrep;
 #[cfg(iroh_verif)] pub mod verif_hooks_ident;
+#[cfg(iroh_verif)] pub mod verif_hooks_socktx;
